@@ -202,6 +202,23 @@ def run(ctx, R, tier):
         R.check(ok_e and ok_c, "C17-R3", "receive_data|short-first-read-handed-over", "a short MSG_WAITALL read is appended to the buffer and counted before the manual loop takes over",
                 rx.loc(fast[0]), "the manual loop can be reached from the MSG_WAITALL attempt without %s: the bytes of a short first read are lost or counted wrongly" % (
                     "appending the chunk" if not ok_e else "setting the counter to its length"))
+        # ... with the right number: the length of the chunk just read, or of the buffer AFTER the chunk was appended to it (the buffer's length before that is 0: the
+        # manual loop would then ask for the whole size again and wait for - or take - bytes that belong to the next message)
+        fchunks = {t.id for c in fast for st_ in [enclosing_stmt(c)] if isinstance(st_, ast.Assign) for t in st_.targets if isinstance(t, ast.Name)}
+        cnt_sts = [st for st, t, k in stores_in(rx.node) if k == "assign" and unparse(t) == counter and isinstance(st.value, ast.Call) and unparse(st.value.func) == "len"
+                   and inner not in enclosing_loops(st, rx.node)]
+        wrongcnt = None
+        for st in cnt_sts:
+            a = unparse(st.value.args[0]) if st.value.args else ""
+            if a in fchunks:
+                continue
+            if a == bufname and all(any(rcfg.dominates(e, n) for e in ext_f) for n in rcfg.nodes_for(st)):
+                continue
+            wrongcnt = st
+        R.check(wrongcnt is None, "C17-R3", "receive_data|short-first-read-counted-by-its-own-length", "after a short MSG_WAITALL read the counter is the length of that chunk (or of the buffer once it holds the chunk)",
+                rx.loc(wrongcnt) if wrongcnt is not None else rx.loc(fast[0]),
+                "`%s` does not count the chunk that was just read: the manual loop asks for too many bytes - it then waits for bytes that are not coming (TimeoutError on a complete message) "
+                "or swallows the beginning of the next message" % (unparse(wrongcnt) if wrongcnt is not None else ""))
         again = rcfg.path_exists(fnodes, lambda n: n in fnodes, edge_ok=noexc)
         R.check(not again, "C17-R1", "receive_data|waitall-read-not-repeated", "after the MSG_WAITALL read returned data, that read is not issued again (it asks for the full size)",
                 rx.loc(fast[0]), "after a short MSG_WAITALL read the loop issues the full-size read again: the second read takes bytes of the next message")
@@ -274,6 +291,13 @@ def run(ctx, R, tier):
             ok = len(rets) == 1 and rets[0].value is calls[0]
         R.check(ok, "C17-R5", "SocketConnection.%s|delegates-exactly" % mname, "the connection wrapper passes the socket and the size/data through unchanged", m_.loc(),
                 "SocketConnection.%s does not hand exactly its argument to %s (or alters the result)" % (mname, target.rsplit(".", 1)[1]))
+        # ... and its outcome too: the exception receive_data / send_data raises IS the result when the read fails (it carries partialData). A handler in the wrapper that
+        # raises a new exception in its place - even of the same class, even chained - drops what the original carried
+        rebuilt = [h for t in walk_no_nested(m_.node) if isinstance(t, ast.Try) for h in t.handlers
+                   for r in ast.walk(h) if isinstance(r, ast.Raise) and r.exc is not None and not (isinstance(r.exc, ast.Name) and r.exc.id == h.name)]
+        R.check(not rebuilt, "C17-R5", "SocketConnection.%s|errors-pass-through-unchanged" % mname, "the connection wrapper lets the exception of the exact read/write through as it is", m_.loc(rebuilt[0]) if rebuilt else m_.loc(),
+                "SocketConnection.%s catches the error of %s and raises a different exception object: `partialData` (the bytes received before the connection broke) stays on the original and is "
+                "lost to every caller that reads through a connection" % (mname, target.rsplit(".", 1)[1]))
 
     # a timeout must surface as socket.timeout (which both loops turn into TimeoutError): it is set with settimeout(), never as a kernel option - an expired
     # SO_RCVTIMEO / SO_SNDTIMEO shows up as EAGAIN, which is in ERRNO_RETRIES and is retried for ever
